@@ -9,6 +9,7 @@ def make(kind, prop, quick, thorough, long_every=30):
     def run_case(ctx, rng, idx):
         long = ctx.tier == "thorough" and idx % long_every == 0
         cfg = history.Cfg(rng, kind, long=long)
+        cfg.use_constructor = rng.random() < 0.3
         raw = []
         nviol = len(ctx.violations)
         try:
